@@ -13,20 +13,40 @@
 #include <resolvo.h>
 
 static uint64_t rng_state = 1;
+// Coverage-guided mode (-DCONTAINER_FUZZ, clang -fsanitize=fuzzer): choices are read from the
+// fuzzer's input, one byte per small choice, so that a mutation of the input is a small mutation
+// of the operation sequence; an exhausted tape answers 0.
+static const uint8_t* tape = nullptr;
+static size_t tape_len = 0, tape_pos = 0;
+static uint64_t take(int n) {
+    uint64_t v = 0;
+    for (int i = 0; i < n; ++i) {
+        v = (v << 8) | (tape_pos < tape_len ? tape[tape_pos] : 0);
+        tape_pos++;
+    }
+    return v;
+}
 static uint64_t rnd() {
+    if (tape) return take(8);
     rng_state += 0x9E3779B97F4A7C15ull;
     uint64_t z = rng_state;
     z = (z ^ (z >> 30)) * 0xBF58476D1CE4E5B9ull;
     z = (z ^ (z >> 27)) * 0x94D049BB133111EBull;
     return z ^ (z >> 31);
 }
-static uint64_t below(uint64_t n) { return n ? rnd() % n : 0; }
+static uint64_t below(uint64_t n) {
+    if (tape && n) return n == 1 ? 0 : (n <= 256 ? take(1) % n : (n <= 65536 ? take(2) % n : take(8) % n));
+    return n ? rnd() % n : 0;
+}
 
 static uint64_t ops_done = 0, checks_done = 0, growths = 0, shared_mutations = 0, moved_aliases = 0;
 static bool allow_alias = false;
 
 [[noreturn]] static void fail(const std::string& what) {
     std::cout << "MISMATCH " << what << std::endl;
+#ifdef CONTAINER_FUZZ
+    std::abort();  // libFuzzer keeps the input
+#endif
     std::exit(1);
 }
 
@@ -391,6 +411,22 @@ static void run_string(uint64_t nops) {
     }
 }
 
+#ifdef CONTAINER_FUZZ
+extern "C" int LLVMFuzzerTestOneInput(const uint8_t* data, size_t size) {
+    tape = data;
+    tape_len = size;
+    tape_pos = 0;
+    allow_alias = true;
+    uint64_t nops = 20 + below(200);
+    switch (below(4)) {
+        case 0: run_vec<int>(nops, "Vector<int>"); break;
+        case 1: run_vec<resolvo::SolvableId>(nops, "Vector<SolvableId>"); break;
+        case 2: run_vec<resolvo::String>(nops, "Vector<String>"); break;
+        default: run_string(nops); break;
+    }
+    return 0;
+}
+#else
 int main(int argc, char** argv) {
     uint64_t seed = argc > 1 ? std::strtoull(argv[1], nullptr, 10) : 1;
     uint64_t nseq = argc > 2 ? std::strtoull(argv[2], nullptr, 10) : 100;
@@ -407,3 +443,4 @@ int main(int argc, char** argv) {
               << " mutations_through_index=" << shared_mutations << " moved_from_own_element=" << moved_aliases << " single_pass_ranges=" << one_pass_ranges << " writes_through_slices=" << slice_writes << std::endl;
     return 0;
 }
+#endif
